@@ -345,7 +345,7 @@ class Replayer(object):
                                     'a new db_session reads %r, the committed value is %r' % (val, py(expected_on_load)),
                                     behaviour, k - 1)
                     ns = {'o': o}
-                    self.plain_since = None
+                    self.plain_since = 'load' if has_plain_container(getattr(o, attr)) else None      # (attribution only)
                     self.target_tracked = {}
                     while k < len(behaviour) and not reopened:
                         st = behaviour[k]
@@ -433,8 +433,13 @@ class Replayer(object):
             if changing and self.plain_since is not None and not self.target_tracked.get(last_k, True):
                 # (attribution only) an earlier call left a plain dict/list inside the tracked value and the lost change
                 # was made to that plain container
-                culprit = behaviour[self.plain_since]['ev']
                 last = changing[-1]
+                if self.plain_since == 'load':
+                    self.report('C28:%s:value-loaded-from-database-holds-untracked-container' % self.kind,
+                                'the value loaded in a new db_session holds a plain (untracked) container; the change made by %s is not '
+                                'in the database after %s: row holds %r, the attribute value is %r' % (source(last, attr), ev['op'], row, expected),
+                                behaviour, k)
+                culprit = behaviour[self.plain_since]['ev']
                 sig = 'C28:%s:inserts-untracked-container' % method_name(culprit, self.kind)
                 what = '%s stored a plain (untracked) container inside the attribute value; the later change made by %s is not in ' \
                        'the database after %s: row holds %r, the attribute value is %r' % (
@@ -531,15 +536,26 @@ def plans(tier):
         ('strarray', dict(spec='SimSpec', scalars='ScalarsStr', conts='ContsNone', keys='KeysA', sliceb='SliceBMid', maxlen=3,
                           maxseq=2, docs='DocsStrArr', burst=3, ops='OpsNoSetSlice'), 50 if quick else 400, 30),
     ]
-    burst = 1 if quick else 2
-    graph = [
-        ('json', dict(scalars='ScalarsOne' if not quick else 'ScalarsTwo', conts='ContsEmpty', keys='KeysA', sliceb='SliceBSmall',
-                      maxlen=3, maxseq=1, docs='DocsEpisode', burst=burst, commits=1)),
-        ('intarray', dict(scalars='ScalarsTwo', conts='ContsNone', keys='KeysA', sliceb='SliceBSmall', maxlen=3, maxseq=1,
-                          docs='DocsEpisodeInt', burst=burst, commits=1)),
-        ('strarray', dict(scalars='ScalarsStr', conts='ContsNone', keys='KeysA', sliceb='SliceBSmall', maxlen=3, maxseq=1,
-                          docs='DocsEpisodeStr', burst=1, commits=1)),
-    ]
+    if quick:
+        graph = [
+            ('json', dict(scalars='ScalarsTwo', conts='ContsEmpty', keys='KeysA', sliceb='SliceBSmall', maxlen=3, maxseq=1,
+                          docs='DocsEpisode', burst=1, commits=1)),
+            ('intarray', dict(scalars='ScalarsTwo', conts='ContsNone', keys='KeysA', sliceb='SliceBSmall', maxlen=3, maxseq=1,
+                              docs='DocsEpisodeInt', burst=1, commits=1)),
+            ('strarray', dict(scalars='ScalarsStr', conts='ContsNone', keys='KeysA', sliceb='SliceBSmall', maxlen=3, maxseq=1,
+                              docs='DocsEpisodeStr', burst=1, commits=1)),
+        ]
+    else:
+        graph = [
+            ('json', dict(scalars='ScalarsTwo', conts='ContsEmpty', keys='KeysA', sliceb='SliceBMid', maxlen=3, maxseq=1,
+                          docs='DocsEpisode', burst=1, commits=1)),
+            ('json', dict(scalars='ScalarsOne', conts='ContsEmpty', keys='KeysA', sliceb='SliceBSmall', maxlen=2, maxseq=1,
+                          docs='DocsEpisode2', burst=2, commits=1)),
+            ('intarray', dict(scalars='ScalarsTwo', conts='ContsNone', keys='KeysA', sliceb='SliceBSmall', maxlen=3, maxseq=1,
+                              docs='DocsEpisodeInt', burst=2, commits=1)),
+            ('strarray', dict(scalars='ScalarsStr', conts='ContsNone', keys='KeysA', sliceb='SliceBMid', maxlen=3, maxseq=1,
+                              docs='DocsEpisodeStr', burst=1, commits=1)),
+        ]
     return mc, sim, graph
 
 
@@ -574,12 +590,13 @@ def run(ctx):
                 behaviours, res = tlc.simulate('JsonDoc', cfg(**c), ctx.scratch, num=num, depth=depth, seed=ctx.seed + 1,
                                                tag='sim-' + kind)
                 return kind, how, [[plain_state(s) for s in b] for b in behaviours], 0, 0
-            nodes, edges, inits, res = tlc.dump_graph('JsonDoc', cfg(**c), ctx.scratch, workers=1, tag='graph-' + kind)
+            nodes, edges, inits, res = tlc.dump_graph('JsonDoc', cfg(**c), ctx.scratch, workers=1, tag='graph%d-%s' % (num, kind))
             paths, covered = path_cover(nodes, edges, inits)
             if covered != len(set(edges)):
                 raise MachineryError('path cover misses edges: %d of %d' % (covered, len(set(edges))))
             return kind, how, [[plain_state(s) for s in p] for p in paths], res.distinct, res.generated
-        todo = [('simulate', kind, c, num, depth) for kind, c, num, depth in sim] + [('graph', kind, c, 0, 0) for kind, c in graph]
+        todo = [('simulate', kind, c, num, depth) for kind, c, num, depth in sim] + \
+            [('graph', kind, c, n, 0) for n, (kind, c) in enumerate(graph)]
         with ThreadPoolExecutor(max_workers=workers) as pool:
             jobs = []
             for kind, how, behaviours, d, g in pool.map(generate, todo):
@@ -601,7 +618,7 @@ def run(ctx):
                     break
             st = rp.stats
             direct |= st.pop('direct')
-            stats_all['%s/%s' % (kind, how)] = dict(st, behaviours=len(behaviours))
+            stats_all['%s/%s/%d' % (kind, how, len(stats_all))] = dict(st, behaviours=len(behaviours))
             steps_done += st['steps']
             if behaviours and len(ctx.samples) < 4:
                 b = behaviours[len(behaviours) // 2]
@@ -618,7 +635,7 @@ def run(ctx):
     need += [(k, 'list', o) for k in ('intarray', 'strarray') for o in ('append', 'extend', 'insert', 'pop', 'remove', 'sort',
                                                                           'reverse', 'clear', 'iadd', 'imul', 'setitem', 'delitem')]
     missing = [n for n in need if n not in ops_direct]
-    if missing:
+    if missing and not ctx.violations:      # (a run cut short by violations has not replayed everything)
         raise MachineryError('generated behaviours never observe the database directly after: %r' % (missing,))
 
     ctx.coverage.update({
